@@ -2756,6 +2756,61 @@ fn k_srcslice(cx: &mut Ctx, drv: &mut Driver, rng: &mut Rng, n_random: usize) ->
     (n, bad)
 }
 
+/// (K) for Model/Layout.lean: the single-line / break decision of every group `render_group` lays out,
+/// recorded by the `koto_format::verif_trace` hook (requests/C11-hook-1.diff), against the model.
+/// Compiled only with `--cfg c11_layout_trace` until the hook is in /repo.
+#[cfg(c11_layout_trace)]
+fn k_layout(cx: &mut Ctx, drv: &mut Driver, progs: &[Prog], rng: &mut Rng, n_progs: usize) -> Value {
+    let (mut n, mut bad, mut flat, mut skipped) = (0u64, 0u64, 0u64, 0u64);
+    let grid = full_grid();
+    for _ in 0..n_progs {
+        if progs.is_empty() {
+            break;
+        }
+        let p = rng.pick(progs);
+        if p.src.len() > 20000 {
+            continue;
+        }
+        for o in [Opt::default(), *rng.pick(&grid)] {
+            koto_format::verif_trace::start();
+            let _ = kvh::catch(|| format(&p.src, o.to_fo()));
+            let lines = koto_format::verif_trace::take();
+            let mut reqs = vec![];
+            let mut recs = vec![];
+            for l in &lines {
+                let f: Vec<&str> = l.splitn(7, ' ').collect();
+                if f.len() != 7 {
+                    skipped += 1;
+                    continue;
+                }
+                reqs.push(format!("group {} {} {}", f[0], f[1], f[6]));
+                recs.push(format!("{} {} {} {}", f[2], f[3], f[4], f[5]));
+            }
+            let resps = drv.batch(&reqs);
+            for ((req, rec), resp) in reqs.iter().zip(recs.iter()).zip(resps.iter()) {
+                n += 1;
+                let m: Vec<&str> = resp.split(' ').collect();
+                let model = m.iter().take(4).cloned().collect::<Vec<_>>().join(" ");
+                if m.get(4) == Some(&"0") {
+                    flat += 1;
+                }
+                if &model != rec {
+                    bad += 1;
+                    if bad <= 3 {
+                        cx.rep.violation("K", "K:C11:Model.Layout.broken", json!({"input": req, "program": p.src, "opt": o.text(),
+                            "impl": rec, "model": model, "fields": "measured_line_length too_long force_break last_is_indented_block",
+                            "note": "model and implementation disagree; the theorems layout_* of Props/C11.lean no longer speak about this code"}));
+                    }
+                }
+                if cx.rep.samples.len() < 8 && n % 5003 == 7 {
+                    cx.rep.sample(json!({"kind": "K layout", "request": req, "impl": rec, "model": resp}));
+                }
+            }
+        }
+    }
+    json!({"layout_decisions": n, "layout_disagreements": bad, "single_line_decisions": flat, "unparsed_trace_lines": skipped})
+}
+
 fn main() {
     kvh::quiet_panics();
     let args = Args::parse();
@@ -2941,6 +2996,19 @@ fn main() {
         let (n1, b1) = k_fmtopts(&mut cx, &mut drv, &mut rng.fork(), if args.thorough() { 6000 } else { 1500 });
         let (n2, b2) = k_srcslice(&mut cx, &mut drv, &mut rng.fork(), if args.thorough() { 3000 } else { 400 });
         k_stats = json!({"fmtopts_cases": n1, "fmtopts_disagreements": b1, "srcslice_cases": n2, "srcslice_disagreements": b2, "driver_requests": drv.requests});
+        #[cfg(c11_layout_trace)]
+        {
+            let progs = load_corpus();
+            let mut gens: Vec<Prog> = vec![];
+            let mut r2 = rng.fork();
+            for i in 0..(if args.thorough() { 400 } else { 60 }) {
+                gens.push(Prog { name: format!("genk#{}", i), src: Gen::new(r2.fork()).program(), runnable: false, path: None, source: "generated" });
+            }
+            let all: Vec<Prog> = progs.into_iter().chain(gens.into_iter()).collect();
+            let st = k_layout(&mut cx, &mut drv, &all, &mut rng.fork(), if args.thorough() { 1500 } else { 250 });
+            k_stats["layout"] = st;
+            k_stats["driver_requests"] = json!(drv.requests);
+        }
     } else {
         cx.rep.note("no model driver: (K) for FmtOptions/SrcSlice skipped");
     }
